@@ -159,6 +159,12 @@ def c09_roundtrip(definition, raws):
     g1 = W(definition)
     assert W(definition) == g1, "C15_deterministic"
     assert canon_definition(definition) == before, "C15_write_does_not_alter"
+    # ... nor does what is written depend on which other definitions were written before in this process
+    import copy
+    other = copy.deepcopy(definition)
+    other.space_system_name = 'ANOTHER_SPACE_SYSTEM'
+    W(other)
+    assert W(definition) == g1, "C15_independent_of_other_writes"
     tree = ET.fromstring(g1)
     uri = definition.xtce_schema_uri
     assert all((not isinstance(e.tag, str)) or (e.tag.startswith('{%s}' % uri) if uri else not e.tag.startswith('{'))
